@@ -138,6 +138,21 @@ def r16_3(ctx):
                             ctx.bad(f"process_arp|fill|{what}", f"process_arp fills the cache without the `{what}` check (spoofable entry)", body=b, bb=x[0])
                         else:
                             ctx.ok(('process_arp', what), sample=dict(fn='process_arp', guard=what))
+                elif fnm == 'process_ndisc':
+                    # the link-layer address that is stored passed is_unicast() (a broadcast / multicast one would make
+                    # every unicast packet for that neighbour a link-layer broadcast for 60 s)
+                    hw = strip(simplify(F.origin.operand(b, x[2][2], x[0], len(b.blocks[x[0]]['s']))))
+
+                    def uni(f, hw=hw):
+                        if f[0] != 'bool' or f[2] is not True:
+                            return False
+                        c = strip(f[1])
+                        return c[0] == 'call' and c[1].endswith('::is_unicast') and c[2] and show(strip(c[2][0])).replace('&', '').replace('*', '') == show(hw).replace('&', '').replace('*', '')
+                    if unguarded(F, b, [x[0]], uni):
+                        ctx.bad("process_ndisc|fill|unicast-lladdr", "process_ndisc stores a link-layer address from a neighbor solicitation / advertisement without the is_unicast() check: "
+                                "a crafted message with ff:ff:ff:ff:ff:ff teaches neighbor -> broadcast, and unicast packets for that neighbor go to every station", body=b, bb=x[0])
+                    else:
+                        ctx.ok((fnm, 'fill', 'unicast lladdr', x[0]), sample=dict(fn='process_ndisc', guard='lladdr.is_unicast()'))
                 else:
                     ctx.ok((fnm, 'fill', x[0]))
     ctx.need(n >= 3, "cache fill sites")
